@@ -256,8 +256,9 @@ def concretize(g, walk, cfg, inst_name, mapping, rng, cid):
                     cur["end"], cur["pr"], cur["pm"] = "pre", act["r"], act["m"]
                     if impl[act["r"]] in REAL_PRE and rng.random() < 0.5:
                         cur["pm"] = "real"      # the resource itself refuses (2PC replica rejects / nested archetype answers "aborted")
-                        if impl[act["r"]] == "nested" and rng.random() < 0.5:
-                            cur["pm"] = "late"  # ... and answers only after the resource's own timeout has expired
+                        if impl[act["r"]] == "nested" and rng.random() < 0.6:
+                            # ... and answers ("aborted", or the ordinary ack) only after the resource's own timeout has expired
+                            cur["pm"] = rng.choice(["late", "lateack"])
             else:
                 cur["end"] = how
         if idle and t != "feed":
